@@ -290,7 +290,16 @@ class C20(PropBase):
                 "(c20_features_value_never_unimplemented, c20_verbose_value_never_unwraps; with ignore_case the statement no longer "
                 "holds: c20_ignore_case_reaches_default_arm); never by panic from any argument vector (c20_argv_never_panics; 101 only "
                 "through --help-markdown's expect); parsed values went through their value parser, a flag / single-valued option "
-                "given twice is a usage error (c20_parsed_values_validated, c20_single_options_at_most_once); every sink is opened "
+                "given twice is a usage error (c20_parsed_values_validated, c20_single_options_at_most_once); the manual's item-by-item "
+                "reading of a command line (--flag, --name=value, --name value, positional word; any order and mix of forms) is exactly "
+                "what the tokenizer computes (c20_manual_reading_is_parsed, c20_eq_form_same_as_space_form, "
+                "c20_after_dashdash_positional); help / version take effect where they stand; an unknown option, a repeated flag / "
+                "single-valued option, a refused value and EVERY near-miss spelling of a --features value are usage errors where they "
+                "stand (c20_help_where_it_stands, c20_unknown_option_rejected, c20_repeated_option_rejected, c20_invalid_value_rejected, "
+                "c20_features_near_miss_rejected); at most one diagnostic per run, the logger's fatal line has exactly three causes "
+                "(c20_at_most_one_diagnostic, c20_logger_diagnostic_cause; the log file / stderr content is compared with the line built "
+                "from the library's error in-process); the order of 19 landmarks of main_result and every process::exit argument are "
+                "regenerated and pinned (c20_main_steps_pinned); every sink is opened "
                 "before the first report byte in every mode, so an uncreatable --log-file / --cyborg / --output-file path means no "
                 "report byte anywhere (c20_sinks_opened_before_first_report_byte, c20_uncreatable_sink_no_report; the translator pins "
                 "that no File::create follows a printer call). The built minidump-stackwalk binary is run over the option matrix x inputs "
